@@ -69,7 +69,9 @@ Lemma scale_float f v : core_fmt f -> core_dy f v ->
 Proof.
   intros Hf Hv. unfold scale_elem. cbn [num_to_f64 f64_mul_pow2].
   rewrite (rnd64_exact _ _ (scaled_fits f v Hf Hv)).
-  destruct (0 <=? nf f); reflexivity.
+  destruct (0 <=? nf f); [reflexivity|].
+  (* the product is zero only if the value is: nothing vanishes *)
+  cbn [f64_is_zero andb]. destruct (dm v =? 0); reflexivity.
 Qed.
 
 (* ---- int element ---- *)
@@ -98,8 +100,9 @@ Proof.
   - eexists; split; [reflexivity|]. split; [lia|].
     cbn [num_to_f64 f64_mul_pow2]. rewrite f64_of_Z_exact by lia. cbn [f64_mul_pow2].
     replace (0 + nf f) with (nf f) by lia.
-    apply rnd64_exact. pose proof (scaled_fits f (dy_of_Z z) ltac:(split; lia) Hd) as Hfit.
-    unfold dy_of_Z in Hfit. cbn [dm de] in Hfit. replace (0 + nf f) with (nf f) in Hfit by lia. exact Hfit.
+    pose proof (scaled_fits f (dy_of_Z z) ltac:(split; lia) Hd) as Hfit.
+    unfold dy_of_Z in Hfit. cbn [dm de] in Hfit. replace (0 + nf f) with (nf f) in Hfit by lia.
+    rewrite (rnd64_exact _ _ Hfit). cbn [f64_is_zero andb]. destruct (z =? 0); reflexivity.
 Qed.
 
 (* ---- comparisons with the bounds after rounding ---- *)
